@@ -1,4 +1,5 @@
 from vlib import Obl, PORTFOLIO
+from props.ts_common import ts_obl
 
 TITLE = 'UTC entries round-trip; id/time conversion is anchored, monotone, invertible'
 LEVEL_TEXT = ('bounded symbolic verification of the real time map (tmap.c) with a 2-entry allocation hook: pairs kept across growth, stored pairs reproduced exactly, '
@@ -13,6 +14,7 @@ EXPLANATION = ('O2: N<=NMAX pairs (symbolic strictly increasing ids, non-decreas
 
 def obligations(tier):
     o = []
+    o.append(ts_obl('O1_utc_index_construction_D2_N5', True, 2, 5, timeout=900 if tier == 'quick' else 2400))
     nm = 4 if tier == 'quick' else 6
     base = ['JLS_VERIF_TMAP_ALLOC_INIT=2']
     o.append(Obl('O2_tmap_pairs_exact', 'c12_tmap.c', units=['tmap.c'], defines=base, unwind=nm + 4, timeout=900, backend=PORTFOLIO, mem_gb=24,
